@@ -392,7 +392,53 @@ def addassign_rules(rep, prog):
                     "after `a += b`, a.%s is %r instead of a.%s + b.%s" % (path, got, path, path), config=cfg)
 
 
+def winding_rules(rep, prog):
+    """F6: is_backface decides by the sign of ONE polynomial P(v0,v1,v2) in the screen x,y of the
+    three vertices with P(v0,v2,v1) = -P(v0,v1,v2) and P(v1,v2,v0) = P(v0,v1,v2): exactly one of
+    the two vertex orders of a non-degenerate triangle is a back face, whichever vertex comes first."""
+    from . import symalg as S
+    cfg = prog.config
+    isb = prog.body("retrofire_core::render::is_backface")
+    VTX = "retrofire_core::geom::Vertex"
+
+    def decide(order):
+        seen = []
+
+        def orc(op, a, b):
+            if b == ("f", 0.0) and op in ("Gt", "Lt", "Ge", "Le"):
+                seen.append((op, a))
+                return True
+            if a == ("f", 0.0) and op in ("Gt", "Lt", "Ge", "Le"):
+                seen.append(({"Gt": "Lt", "Lt": "Gt", "Ge": "Le", "Le": "Ge"}[op], b))
+                return True
+            return None
+        it = S.interp(prog, oracle=orc)
+        vs = ("array", [("adt", VTX, "Vertex", [S.point(["x%d" % i, "y%d" % i, "z%d" % i]), A.UNKNOWN]) for i in order])
+        try:
+            it.call_body(isb, [S.ref_to(vs)])
+        except (A.Undecided, A.Panic) as e:
+            raise common.Infra("C07.F6: is_backface could not be evaluated symbolically (%s)" % e)
+        if len(seen) != 1:
+            raise common.Infra("C07.F6: is_backface does not decide by a single sign test (%d comparisons)" % len(seen))
+        op, v = seen[0]
+        p = S.to_poly(v)
+        if op in ("Lt", "Le"):
+            p = {m: -c for m, c in p.items()}
+        return p
+    p012, p021, p120 = decide((0, 1, 2)), decide((0, 2, 1)), decide((1, 2, 0))
+    anti = p021 == {m: -c for m, c in p012.items()}
+    cyc = p120 == p012
+    planar = not any(sym.startswith("z") for m in p012 for sym in m) and bool(p012)
+    rep.inst("C07.F6", "is_backface = sign of P = %s ; P(v0,v2,v1) = -P: %s ; P(v1,v2,v0) = P: %s ; depends on screen x,y only: %s"
+             % (dict(list(p012.items())[:6]), anti, cyc, planar), config=cfg)
+    if not (anti and cyc and planar):
+        rep.violate("C07.F6", "F6|winding-polynomial", isb.where(),
+                    "is_backface is not the sign of an antisymmetric, cyclically invariant polynomial of the screen positions "
+                    "(antisymmetric=%s cyclic=%s planar=%s): a triangle could be culled (or drawn) in both vertex orders" % (anti, cyc, planar), config=cfg)
+
+
 def check_config(rep, prog):
+    winding_rules(rep, prog)
     fb = TargetImpl(prog, FB_RASTERIZE, True)
     cb = TargetImpl(prog, BUF_RASTERIZE, False)
     c1 = flag_rules(rep, prog, fb, "Framebuf::rasterize")
@@ -415,7 +461,7 @@ def check(rep, args):
                        "abstract interpretation of Stats::add_assign with symbolic counters",
         "evaluations": len(rep.instances),
         "distinct_nontrivial": len({i["what"] for i in rep.instances}),
-        "rules": ["F1", "F2", "F3", "F4", "F5"],
+        "rules": ["F1", "F2", "F3", "F4", "F5", "F6"],
     }
     return "other", cov, [
         "MIR at -Zmir-opt-level=0 faithfully represents the source",
